@@ -193,4 +193,23 @@ PROPS = {
             {"pkg": S, "test": "TestVerifC08", "quick": (16, 400), "thorough": (16, 20000), "timeout_q": 1500},
         ],
     },
+    "C09": {
+        "level": "exploration",
+        "claim": ("A source (local route via the API, eBGP, iBGP non-client, RR client or confederation member) announces 1-3 "
+                  "IPv4/IPv6 routes with generated attributes (AS_PATH with SEQUENCE/SET/CONFED segments incl. private, own, "
+                  "target and 255-member segments; LOCAL_PREF, MED, ORIGINATOR_ID and CLUSTER_LIST with/without the local ids; "
+                  "unknown transitive and non-transitive attributes; unspecified next hop for local routes) to a real BgpServer "
+                  "in virtual time; two established target peers of generated kinds (eBGP, iBGP, RR client, confederation "
+                  "member; remove-private-as all/replace, replace-peer-as, a second session to the source's router-id) each "
+                  "hold, after applying the UPDATE bytes written to them, exactly what the reference export function "
+                  "prescribes (advertise or not, and every attribute); the route as stored for the source is unchanged."),
+        "note": ("Route-server clients and VRF-attached peers are covered by C01/C17; the reference follows RFC 4271/4456/5065 "
+                 "and the property text; adjacent AS_SEQUENCE segments are compared as one sequence."),
+        "technique": "property-based testing (rapid) in virtual time against a reference export function, byte-level observation on the wire",
+        "rule": ("non-trivial when at least one rewrite or filtering rule fires for some (route, target) pair; distinct by case hash"),
+        "assumptions": [],
+        "units": [
+            {"pkg": S, "test": "TestVerifC09", "quick": (16, 400), "thorough": (16, 20000), "timeout_q": 1500},
+        ],
+    },
 }
